@@ -2077,6 +2077,22 @@ def rule_const_all_coeffs(ctx):
                                     names.add(e.id)
             return names
 
+        # a Taylor polynomial built from `zeros((D, P) + shape) + c`: plain broadcasting writes c into every coefficient
+        for c_ in walk_no_nested(fi.node):
+            if isinstance(c_, ast.Call) and len(c_.args) == 1 and norm(c_.func) in ('cls', 'UTPM', 'self.__class__') and isinstance(c_.args[0], ast.BinOp) \
+                    and isinstance(c_.args[0].op, (ast.Add, ast.Sub)):
+                b_ = c_.args[0]
+                def is_alloc(e):
+                    return isinstance(e, ast.Call) and (dotted_name(e.func) or '').split('.')[-1] in ('zeros', 'zeros_like', 'empty', 'empty_like', '__zeros__')
+                for alloc_, other in ((b_.left, b_.right), (b_.right, b_.left)):
+                    if is_alloc(alloc_) and not is_alloc(other):
+                        n += 1
+                        if carries_data(other, data_names_before(c_.lineno)):
+                            r.ok(construct='%s:%s' % (fi.qualname, norm(c_)[:50]))
+                        else:
+                            r.bad(Finding('C02.const-all', _f(fi), norm(c_)[:80], '%s: `%s` adds a value that is not coefficient data to an all-zero coefficient array: '
+                                                                                   'broadcasting writes it into every Taylor coefficient, a constant belongs to coefficient 0 only'
+                                          % (fi.qualname, norm(c_)[:70]), fi.file, c_.lineno))
         for st in walk_no_nested(fi.node):
             if isinstance(st, ast.Expr) and isinstance(st.value, ast.Call) and (dotted_name(st.value.func) or '') == 'numpy.copyto' and len(st.value.args) >= 2:
                 dst, v = st.value.args[0], st.value.args[1]
